@@ -48,6 +48,10 @@ for row in itertools.product(VALS, repeat=3):
                 win = data.loc[now - pd.DateOffset(days=1): now]
                 want = [n for n in base if int(win[n].notna().sum()) >= mc and ok_price(r[n], nd, neg)]
                 check("SelectHasData", t.temp["selected"], want, dict(info, prior=prior, min_count=mc))
+        # on-the-run aliases: the resolved names pass the price screen of the flags, names that are no alias pass through as they are
+        otr_ = pd.DataFrame([[names[0], names[1]]] * len(idx), index=idx, columns=["otr_a", "otr_b"])
+        t = T(data, now, temp={"selected": ["otr_a", names[2], "otr_b"]}, extra={"otr": otr_}); A.ResolveOnTheRun("otr", nd, neg)(t)
+        check("ResolveOnTheRun", t.temp["selected"], [n for n in names[:2] if ok_price(r[n], nd, neg)] + [names[2]], info)
         sig = pd.DataFrame([[True, False, True]], index=[now], columns=names)
         t = T(data, now, extra={"sig": sig}); A.SelectWhere("sig", nd, neg)(t)
         check("SelectWhere", t.temp["selected"], [n for n in names if bool(sig.loc[now, n]) and ok_price(r[n], nd, neg)], info)
